@@ -186,6 +186,51 @@ def pairing_remove(ctx):
     prune_rules(ctx, f)
 
 
+def _nonempty_marks(hg):
+    """(test node, label) edges that mean `a leaf of the branch holds attached children`"""
+    marks = []
+    for t in hg.stmt_nodes():
+        if t.kind != 'test':
+            continue
+        conj = t.ast.values if isinstance(t.ast, ast.BoolOp) and isinstance(t.ast.op, ast.And) else [t.ast]
+        for cnd in conj:
+            txt = unparse(cnd)
+            if not any(k in txt for k in ('.xml_elements', '._xml_elements')):
+                continue
+            if isinstance(cnd, ast.Attribute) or (isinstance(cnd, ast.Compare) and isinstance(cnd.ops[0], (ast.Gt, ast.NotEq, ast.GtE)) and txt.startswith('len(')):
+                marks.append((t, 'T'))
+            elif isinstance(cnd, ast.Compare) and isinstance(cnd.ops[0], (ast.Eq, ast.Lt, ast.LtE)) and len(conj) == 1:
+                marks.append((t, 'F'))
+            elif isinstance(cnd, ast.Compare) and isinstance(cnd.ops[0], ast.NotEq) and txt.endswith('!= []'):
+                marks.append((t, 'T'))
+    return marks
+
+
+def _pruned_only_when_empty(hg, prune_node, call):
+    """No path on which a leaf of the branch was found non-empty reaches the prune (per branch: the mark is reset at the loop that
+    binds the pruned node).  Accepts the `any(...)` / `all(...)` forms as a direct guard."""
+    arg = call.args[0] if call.args else None
+    guards = [(t, lab) for t, lab in dom.guards_of(hg, prune_node) if t.kind == 'test']
+    for t, lab in guards:
+        for x in ast.walk(t.ast):
+            if isinstance(x, ast.Call) and isinstance(x.func, ast.Name) and x.func.id in ('any', 'all') and x.args and isinstance(x.args[0], (ast.GeneratorExp, ast.ListComp)) \
+                    and 'xml_elements' in unparse(x.args[0]) and 'iterate_leaves()' in unparse(x.args[0]):
+                gen = x.args[0]
+                elt_nonempty = 'xml_elements' in unparse(gen.elt) and not (isinstance(gen.elt, ast.UnaryOp) and isinstance(gen.elt.op, ast.Not))
+                if x.func.id == 'any' and elt_nonempty and lab == 'F' and not gen.generators[0].ifs:
+                    return True, ''
+                if x.func.id == 'all' and isinstance(gen.elt, ast.UnaryOp) and isinstance(gen.elt.op, ast.Not) and lab == 'T' and not gen.generators[0].ifs:
+                    return True, ''
+    marks = _nonempty_marks(hg)
+    if not marks:
+        return False, "no test of a leaf's attached children (`<leaf>.content.xml_elements`) is found in the function that prunes"
+    resets = [n for n in hg.stmt_nodes() if n.kind == 'for' and isinstance(arg, ast.Name) and isinstance(n.stmt.target, ast.Name) and n.stmt.target.id == arg.id]
+    path = dom.marked_reach(hg, marks, resets, prune_node)
+    if path is None:
+        return True, ''
+    return False, 'a leaf is found non-empty and the branch is pruned all the same: ' + ' -> '.join(n.text() for n in path[-7:])
+
+
 def prune_rules(ctx, f):
     """Pruning of duplicated branches in remove(): only below a duplication wrapper, only while another occurrence remains, only after
     the branch's leaves were examined."""
@@ -212,8 +257,9 @@ def prune_rules(ctx, f):
                           fail_detail=f"guards of `{short(c)}`: {guards}", key='R-PAIR.remove|keep-last-occurrence', line=p.line)
                 only_dup = any('DuplicationXSDSequence' in txt and lab == 'T' for txt, lab in guards)
                 res.check(only_dup, 'R-PAIR.remove', helper.fq, "only occurrences below a duplication wrapper are pruned", key='R-PAIR.remove|only-duplicates', line=p.line)
-                empties = any(txt.startswith('remove_duplicate') and lab == 'T' for txt, lab in guards) or any('xml_elements' in txt for txt, _ in guards)
-                res.check(empties, 'R-PAIR.remove', helper.fq, "a branch is pruned only after its leaves were examined for attached children", key='R-PAIR.remove|empty-only', line=p.line)
+                ok_empty, why_empty = _pruned_only_when_empty(hg, p, c)
+                res.check(ok_empty, 'R-PAIR.remove', helper.fq, "a branch is pruned only when none of its leaves holds an attached child (no path on which a leaf was "
+                          "found non-empty reaches the prune, flag variables evaluated along the path)", fail_detail=why_empty, key='R-PAIR.remove|empty-only', line=p.line)
     res.floor('R-PAIR.remove prune sites', n_prunes, 1)
 
 
